@@ -5,6 +5,6 @@ Rtt_1   == <<0>>
 Rtt_10  == <<1, 0>>           \* connection 2 is the faster one
 Rtt_00  == <<0, 0>>
 Sym     == Permutations(Waiters)
-\* properties that hold for the protocol as implemented as well
+\* properties that also held for the protocol before the repairs (asis_* configs)
 Safe    == TypeOK /\ OkJustified /\ ErrJustified
 =============================================================================
